@@ -92,6 +92,34 @@ fn k_band_accepts_open_interval() {
     assert!(r.nrows() == 1);
     kani::cover!(p == 0.5, "reachable");
 }
+/// C14 for ALL probabilities in (0,1) (every f64 bit pattern): the quantile is looked up exactly once, at
+/// exactly ((p + 1) / 2, dof), and the single entry is t * sigma with sigma = 1
+#[kani::proof]
+#[kani::unwind(4)]
+#[kani::stub(distrs::StudentsT::ppf, ppf_stub)]
+fn k_band_quantile_argument_all_p() {
+    let p: f64 = kani::any();
+    kani::assume(p > 0.0 && p < 1.0);
+    let t: f64 = kani::any();
+    kani::assume(t.is_finite());
+    unsafe {
+        PPF_RET = t;
+        PPF_CALLS = 0;
+    }
+    let dof: usize = kani::any();
+    kani::assume(dof >= 1 && dof <= 64);
+    let st = stats_with(&[1.0], dof);
+    let r = st.confidence_band_radius(p);
+    unsafe {
+        assert!(PPF_CALLS == 1);
+        assert!(PPF_ARGS.0 == (p + 1.0) / 2.0);
+        assert!(PPF_ARGS.1 == dof as f64);
+    }
+    assert!(r.nrows() == 1 && r[0] == t);
+    kani::cover!(p > 0.9999, "reachable: p close to 1");
+    kani::cover!(p < 1e-300, "reachable: tiny p");
+}
+
 /// non-decreasing in p given a non-decreasing quantile: radius = t * sigma with sigma >= 0 (f32 multiplier)
 #[kani::proof]
 fn k_band_monotone_in_t_f32() {
